@@ -65,7 +65,7 @@ kf("C01", "C01-private-initialiser-dropped", "the initialiser of a module-scope 
 kf("C01", "C01-const-composite-null", "a module-scope `const` of array type copied into a function variable (`var t = TBL; t[i]`) is emitted as OpConstantNull: the SPIR-V backend emits constants that have no inline value as null (`emitConstant` fallback), so every element reads as zero",
    ["C01|F1lit/constarray/*|*|mismatch"])
 kf("C01", "C01-block-const-outlives-block", 'a function-scope `const` without type annotation declared in a nested block stays bound after the block ends (popScope does not drop the deferred initialiser): `const g: i32 = 5; fn h() -> i32 { var acc = 0; { const g = 7; acc += g; } acc += g; return acc; }` returns 14 instead of 12 (same with a module-scope var g)',
-   ["C01|F8s/*/blk-const/noref/after/*|*|mismatch"])
+   ["C01|F8s/*/blk-const/noref/after/*|*|mismatch"], "fixed:dc4a19e")
 kf("C01", "C01-workgroup-size-forward-const", '`@workgroup_size(WG)` with `const WG: u32 = 2u;` declared AFTER the entry point is compiled with workgroup size 1 (no error); with the const declared first it is 2',
    ["C01|F8o/workgroup-size-const/*|*|mismatch"], "fixed:397bbe6")
 
@@ -80,7 +80,7 @@ kf("C03", "C03-inverse-hyperbolic", "asinh/acosh/atanh are emitted as calls to f
    ["C03|F1/call/asinh/*|*|malformed-output*", "C03|F1/call/acosh/*|*|malformed-output*", "C03|F1/call/atanh/*|*|malformed-output*"])
 
 kf("C03", "C03-block-const-outlives-block", 'a function-scope `const` without type annotation declared in a nested block stays bound after the block ends (popScope does not drop the deferred initialiser): `const g: i32 = 5; fn h() -> i32 { var acc = 0; { const g = 7; acc += g; } acc += g; return acc; }` returns 14 instead of 12 (same with a module-scope var g)',
-   ["C03|F8s/*/blk-const/noref/after/*|*|mismatch"])
+   ["C03|F8s/*/blk-const/noref/after/*|*|mismatch"], "fixed:dc4a19e")
 kf("C03", "C03-workgroup-size-forward-const", '`@workgroup_size(WG)` with `const WG: u32 = 2u;` declared AFTER the entry point is compiled with workgroup size 1 (no error); with the const declared first it is 2',
    ["C03|F8o/workgroup-size-const/*|*|mismatch"], "fixed:397bbe6")
 kf("C03", "C03-loop-body-value-in-continuing", 'a value bound in a loop body from a function call and used in the continuing block (`loop { if n >= 2 { break; } let t = f(0) * 2; continuing { n += 1; acc += t; } }`) is emitted in the continuing position as a reference to a name that is never declared' + " (`_f_result`)",
@@ -99,7 +99,7 @@ kf("C04", "C04-int-dot-overflow", "dot() on i32 vectors is emitted as plain `a.x
    ["C04|F1/call/dot/*i32*|*|trap:signed-overflow"])
 
 kf("C04", "C04-block-const-outlives-block", 'a function-scope `const` without type annotation declared in a nested block stays bound after the block ends (popScope does not drop the deferred initialiser): `const g: i32 = 5; fn h() -> i32 { var acc = 0; { const g = 7; acc += g; } acc += g; return acc; }` returns 14 instead of 12 (same with a module-scope var g)',
-   ["C04|F8s/*/blk-const/noref/after/*|*|mismatch"])
+   ["C04|F8s/*/blk-const/noref/after/*|*|mismatch"], "fixed:dc4a19e")
 kf("C04", "C04-loop-body-value-in-continuing", 'a value bound in a loop body from a function call and used in the continuing block (`loop { if n >= 2 { break; } let t = f(0) * 2; continuing { n += 1; acc += t; } }`) is emitted in the continuing position as a reference to a name that is never declared' + " (the MSL text does not parse)",
    ["C04|F8s/fn/loop-let/ref/*|*|malformed-output:unexpected*"])
 kf("C04", "C04-forward-call-inside-bitcast", 'forward call inside a bitcast operand (`bitcast<u32>(f1(1))` with f1 declared later): the callee is lowered and emitted after its caller (see C08-forward-reference-inside-bitcast)' + ": use of an undeclared identifier in MSL",
@@ -116,7 +116,7 @@ kf("C05", "C05-abs-unsigned", "abs(u32) is emitted as abs(uint), which GLSL does
    ["C05|F1/call/abs/*u32*|*|malformed-output*", "C05|F4c/*call:abs:u32*|*|malformed-output*"])
 
 kf("C05", "C05-block-const-outlives-block", 'a function-scope `const` without type annotation declared in a nested block stays bound after the block ends (popScope does not drop the deferred initialiser): `const g: i32 = 5; fn h() -> i32 { var acc = 0; { const g = 7; acc += g; } acc += g; return acc; }` returns 14 instead of 12 (same with a module-scope var g)',
-   ["C05|F8s/*/blk-const/noref/after/*|*|mismatch"])
+   ["C05|F8s/*/blk-const/noref/after/*|*|mismatch"], "fixed:dc4a19e")
 kf("C05", "C05-workgroup-size-forward-const", '`@workgroup_size(WG)` with `const WG: u32 = 2u;` declared AFTER the entry point is compiled with workgroup size 1 (no error); with the const declared first it is 2',
    ["C05|F8o/workgroup-size-const/*|*|mismatch"], "fixed:397bbe6")
 kf("C05", "C05-loop-body-value-in-continuing", 'a value bound in a loop body from a function call and used in the continuing block (`loop { if n >= 2 { break; } let t = f(0) * 2; continuing { n += 1; acc += t; } }`) is emitted in the continuing position as a reference to a name that is never declared' + " (GLSL: the function's name is used as a value)",
@@ -273,7 +273,7 @@ kf("C11", "C11-unchecked-const-expression-contexts", "the expression in an array
 kf("C11", "C11-const-assert-forward-const", "a false `const_assert KC == 1;` (function scope or module scope) is accepted when the module constant it mentions (`const KC: i32 = 4;`) is declared after the assertion / after the function containing it: an assertion that cannot be evaluated at that point passes silently",
    ["C11|G:const-assert-false(const-assert-const:module-const)|accepted|stmt/*/decls-after", "C11|M:const-assert-false(const-assert-const:module-const)|accepted|module-const-assert/after-users"], "fixed:c2eb449")
 kf("C11", "C11-function-const-scope-leak", "a function-scope `const k = 7;` declared in a nested block (if/else arm, loop body, switch clause, compound statement) stays visible after the block ends: `{ const k = 7; } acc = k;` and `if c { const k = 7; } else { acc = k; }` compile (let/var are scoped correctly)",
-   ["C11|S:undeclared-identifier(out-of-scope:const:value)|accepted|*"])
+   ["C11|S:undeclared-identifier(out-of-scope:const:value)|accepted|*"], "fixed:dc4a19e")
 kf("C11", "C11-builtin-result-discarded", "a call statement that discards the result of a builtin function (`min(1, 2);`; every value-returning builtin is @must_use in WGSL) is accepted; only user functions marked @must_use are diagnosed",
    ["C11|G:must-use-discarded(must-use:builtin)|accepted|*"])
 kf("C11", "C11-vector-unknown-element-type", "`vec2<ZzUnknownType>()` (a vector constructor whose element type does not exist) is accepted; the same type in a `var t: vec2<ZzUnknownType>` annotation is rejected",
